@@ -353,7 +353,10 @@ class Unit:
     def generate(self, smoke=False):
         g = Gen()
         g.emit("// GENERATED by vx from the current /repo working tree — do not edit.", kind="gen")
-        g.emit("#![allow(unused_imports, unused_variables, dead_code, unused_mut, unused_parens, unused_braces, non_snake_case, unreachable_code, unused_assignments)]", kind="gen")
+        # optional `[unit] crate_attrs = ["#![feature(pattern)]"]`: crate-level attributes a prelude stub needs (an `assume_specification`
+        # whose std signature names an unstable trait); emitted on the SAME line, so line numbers are unchanged
+        g.emit("#![allow(unused_imports, unused_variables, dead_code, unused_mut, unused_parens, unused_braces, non_snake_case, unreachable_code, unused_assignments)]"
+               + "".join(self.cfg.get("unit", {}).get("crate_attrs", [])), kind="gen")
         g.emit("use vstd::prelude::*;", kind="gen")
         g.emit("verus! {", kind="gen")
         for pre in self.cfg.get("unit", {}).get("preludes", ["common"]):
